@@ -129,7 +129,8 @@ def execute(case, scratch):
         stats["faults"]["same_name_headers"] = ev["probes"]["ambiguous_lookup"]
         nontrivial = (ev["probes"]["ambiguous_lookup"] > 0 or ev["probes"]["same_spelling_other_ctx"] > 0
                       or ev_n > 0)
-        return {"verdict": "ok", "stats": stats, "nontrivial": bool(nontrivial)}
+        return {"verdict": "ok", "stats": stats, "nontrivial": bool(nontrivial),
+                "obs_digest": core.jdigest([obs["attr"], obs["setmap"], sorted(obs["events"])])}
     finally:
         W.cleanup(top)
 
